@@ -503,6 +503,57 @@ func runC18(r *Run) {
 		}
 	})
 
+	r.rule("R17", "a configured file name arrives: while a request is prepared, a File's name is written only where it was empty — parserRequestBodyFile (and whatever it calls) assigns File.name only behind the test name == \"\"; a name derived from the path replaces none that SetFileName / AddFileWithReader configured (E1 guard on the overwritten value)", func() {
+		f := r.Fn("client", "parserRequestBodyFile")
+		n := 0
+		var emptyEdges []edge
+		for _, br := range branchesIn(f) {
+			if fv := fieldOfValue(stripValue(br.Info.Root)); fv != nil && fv.Name() == "name" && br.Info.Const != nil {
+				if str, ok := constString(br.Info.Const); ok && str == "" {
+					if sl, ok := br.slotFor(token.EQL); ok {
+						emptyEdges = append(emptyEdges, edge{br.If.Block(), sl})
+					}
+				}
+			}
+		}
+		for _, fr := range fieldRefs(f) {
+			if !fr.Write || !strings.HasSuffix(fr.Name, "File.name") {
+				continue
+			}
+			n++
+			guarded := false
+			for _, e := range emptyEdges {
+				if e.To() == fr.Instr.Block() || dom(e.To(), fr.Instr.Block()) {
+					// the edge's target must be entered only through that edge
+					if len(e.To().Preds) == 1 {
+						guarded = true
+					}
+				}
+			}
+			r.check(guarded, fmt.Sprintf("parserRequestBodyFile:name-store#%d:only-when-empty", n), r.pos(fr.Instr), "the name is derived only for a file that has none",
+				"a file's configured name is overwritten while the request is prepared (the store is not behind name == \"\"): SetFilePath(\"/tmp/upload-8f3a.tmp\") with SetFileName(\"report.txt\") arrives at the server as upload-8f3a.tmp")
+		}
+		r.atLeast("stores to File.name while preparing the body", n, 1)
+	})
+
+	r.rule("R16", "a request whose Send failed is still the caller's: nothing the client runs while executing a request — (*core).execute, execFunc, the hooks, and what they call, ReleaseResponse included — reaches ReleaseRequest or (*Request).Reset; the only one who gives a Request back is its owner (Response.Close, ReleaseRequest called by the user) — a request released on the error path comes back from Send reset to the defaults (client, headers, params, cookies, timeout gone) and is shared through the pool with the next AcquireRequest, a retry then sends something else than what was configured (E2 who-may-call over the call graph)", func() {
+		var roots []*ssa.Function
+		for _, n := range []string{"(*core).execute", "(*core).execFunc", "(*core).preHooks", "(*core).afterHooks", "ReleaseResponse"} {
+			if f := r.FnOpt("client", n); f != nil {
+				roots = append(roots, f)
+			}
+		}
+		r.need(len(roots) >= 3, "the client's execution entry points")
+		chain := reachesCall(roots, func(n string) bool {
+			return strings.HasSuffix(n, "/client.ReleaseRequest") || strings.HasSuffix(n, "client.Request).Reset")
+		}, func(g *ssa.Function) bool { return g.Pkg != nil && strings.HasSuffix(g.Pkg.Pkg.Path(), "/client") })
+		r.check(chain == nil, "execute:never-releases-the-caller's-request", r.fpos(roots[0]), fmt.Sprintf("none of %d entry points reaches ReleaseRequest or Request.Reset", len(roots)),
+			"executing a request can release or reset the caller's Request ("+strings.Join(chain, " → ")+"): after a failed or timed-out Send the request has lost its client, headers, params, cookies and timeout, and the pool hands the same object to the next AcquireRequest")
+		// the owner's path exists: Close gives both back
+		cl := r.Fn("client", "(*Response).Close")
+		r.check(len(callsMatching(cl, false, nameHasSuffix("/client.ReleaseRequest"))) >= 1, "Response.Close:releases-the-request", r.fpos(cl), "Close releases the attached request", "Response.Close no longer releases the attached request (the documented owner-side release)")
+	})
+
 	r.rule("R12", "the port is separated from a host by a port-aware split: the client package cuts a host at a ':' only through net.SplitHostPort or in a function that looks at the closing bracket of an IPv6 literal (E1, belief rule)", func() {
 		hostColonCutRule(r, cliPkg, 1, "so [2001:db8::1] and [2001:db8::2] share the jar key [2001:db8: and each receives the other's cookies")
 	})
